@@ -272,6 +272,54 @@ pub fn border_texts() -> Vec<Vec<u8>> {
     }
     out
 }
+/// block hashes whose length AFTER run collapsing is exactly the capacity (and one below / above),
+/// with one run of 1..20 symbols at the start, in the middle or at the end: the border between
+/// "fits after normalisation" and "too long" for every position of the run
+pub fn capacity_texts() -> Vec<Vec<u8>> {
+    let mut out = vec![];
+    for &cap in &[32usize, 64] {
+        for field in 0..2 {
+            for n in [cap - 1, cap, cap + 1] {
+                for &r in &[1usize, 2, 3, 4, 5, 8, 20] {
+                    for pos in 0..3 {
+                        let d = n - r.min(3);
+                        let filler: Vec<u8> = (0..d).map(|i| B64[(i * 7 + 3) % 64]).collect();
+                        let at = match pos {
+                            0 => 0,
+                            1 => d / 2,
+                            _ => d,
+                        };
+                        // a run symbol different from both neighbours
+                        let mut c = b'A';
+                        for cand in B64.iter() {
+                            let left = if at > 0 { filler[at - 1] } else { 0 };
+                            let right = if at < d { filler[at] } else { 0 };
+                            if *cand != left && *cand != right {
+                                c = *cand;
+                                break;
+                            }
+                        }
+                        let mut bh = filler[..at].to_vec();
+                        bh.extend(std::iter::repeat(c).take(r));
+                        bh.extend_from_slice(&filler[at..]);
+                        let mut t = b"6:".to_vec();
+                        if field == 0 {
+                            t.extend(&bh);
+                            t.extend_from_slice(b":xyz");
+                        } else {
+                            t.extend_from_slice(b"xyz:");
+                            t.extend(&bh);
+                        }
+                        out.push(t.clone());
+                        t.extend_from_slice(b",f");
+                        out.push(t);
+                    }
+                }
+            }
+        }
+    }
+    out
+}
 pub fn mutated_text(rng: &mut Rng) -> Vec<u8> {
     let inject: &[u8] = &[b':', b',', b'!', b' ', 0x80, 0xff, 0, b'=', b'-', b'A', b'/', b'+', b'0', b'9'];
     let mut t: Vec<u8> = if rng.chance(1, 3) {
@@ -356,7 +404,7 @@ pub fn drive_parse(a: &Args, thorough: bool) {
     }
     // (b') the families at the capacity borders, deterministically: one run of every length 60..72
     //      (and 28..40 for block hash 2) alone and after 1..3 other characters
-    for (i, t) in border_texts().iter().enumerate() {
+    for (i, t) in border_texts().iter().chain(capacity_texts().iter()).enumerate() {
         if i % 8 == 0 {
             sh.next_unit();
         }
